@@ -146,4 +146,51 @@ Section DFTD.
       clearbody X. unfold npts. cbn [fpow]. pose proof (n_nz F n n_pos) as Hn. pose proof (fpow_neq0 F _ D Hn) as Hp.
       field. split; assumption.
   Qed.
+
+  (* ---- the other composition: dft . idft = id ---- *)
+  Lemma w'_prim : forall m, (0 < m < n)%nat -> fpow w' m <> 1.
+  Proof.
+    intros m Hm E. apply (w_prim m Hm).
+    transitivity (fpow w m * fpow w' m); [rewrite E; ring|]. rewrite <- fpow_mul_base, w_inv. apply fpow_1.
+  Qed.
+  Lemma w'_inv : w' * w = 1. Proof. rewrite <- w_inv. ring. Qed.
+
+  Lemma dft_idft (U : nat -> K) k : (k < n)%nat -> dft n w (idft n w' U) k = U k.
+  Proof.
+    intros Hk. rewrite <- (dft_inversion F n w' w n_pos (w'_n F n w w' w_n w_inv) w'_prim w'_inv U k Hk).
+    unfold idft, dft. rewrite fdiv_def, <- bsum_scal_r. apply bsum_ext. intros j _.
+    rewrite fdiv_def. rewrite <- !bsum_scal_r. apply bsum_ext. intros m _. rewrite (Nat.mul_comm j k), (Nat.mul_comm j m). ring.
+  Qed.
+
+  Lemma dftD_ext_grid D (u v : list nat -> K) k : length k = D -> (forall j, in_grid D j -> u j = v j) -> dftD n D w u k = dftD n D w v k.
+  Proof.
+    revert u v k. induction D as [|D IH]; intros u v k Hl H; cbn [dftD]; [apply H; split; [reflexivity | constructor]|].
+    destruct k as [|b k]; [discriminate|].
+    unfold dft. apply bsum_ext. intros a Ha. f_equal. apply IH; [cbn in Hl; lia|]. intros r [Hlr Hr]. apply H. split; [cbn; lia | constructor; assumption].
+  Qed.
+
+  Lemma dftD_bsum D (c : nat -> K) (G : nat -> list nat -> K) k :
+    dftD n D w (fun r => bsum n (fun a0 => c a0 * G a0 r)) k = bsum n (fun a0 => c a0 * dftD n D w (G a0) k).
+  Proof.
+    revert G k. induction D as [|D IH]; intros G k; cbn [dftD]; [reflexivity|].
+    destruct k as [|b k]; [reflexivity|].
+    rewrite (dft_ext_all _ (fun a => bsum n (fun a0 => c a0 * dftD n D w (fun r => G a0 (a :: r)) k))) by (intros a; apply IH).
+    unfold dft. rewrite (bsum_ext F n _ (fun a => bsum n (fun a0 => c a0 * (dftD n D w (fun r => G a0 (a :: r)) k * fpow w (a * b))))).
+    2:{ intros a _. rewrite <- bsum_scal_r. apply bsum_ext. intros; ring. }
+    rewrite bsum_swap. apply bsum_ext. intros a0 _. rewrite bsum_scal. reflexivity.
+  Qed.
+
+  Theorem dftD_idftI D (U : list nat -> K) k : in_grid D k -> dftD n D w (idftI n D w' U) k = U k.
+  Proof.
+    revert U k. induction D as [|D IH]; intros U k [Hl Hk].
+    - destruct k; [reflexivity | discriminate].
+    - destruct k as [|b k]; [discriminate|]. inversion Hk as [|? ? Hb Hk']; subst. cbn [dftD].
+      rewrite (dft_ext_all _ (idft n w' (fun b0 => U (b0 :: k)))).
+      + apply dft_idft. exact Hb.
+      + intros a. cbn [idftI].
+        rewrite (dftD_ext D _ (fun r => bsum n (fun b0 => (fpow w' (a * b0) * oinv (fz (Z.of_nat n))) * idftI n D w' (fun r0 => U (b0 :: r0)) r))).
+        2:{ intros r. unfold idft. rewrite fdiv_def, <- bsum_scal_r. apply bsum_ext. intros; ring. }
+        rewrite dftD_bsum. unfold idft. rewrite fdiv_def, <- bsum_scal_r. apply bsum_ext. intros b0 _.
+        rewrite IH by (split; [cbn in Hl; lia | exact Hk']). ring.
+  Qed.
 End DFTD.
